@@ -841,7 +841,9 @@ theorem tickEntry_eq (P : Params) (t : Nat) (e : Pend) :
   by_cases h1 : (pastDeadline t e.deadline || exhausted P e.n) = true
   · simp [h1]
   · simp only [h1]
-    by_cases h2 : t > e.start + (e.n + retransmitAddend) * P.ackTimeout <;> simp [h2]
+    -- the entry is not dropped in the pass that wrote the copy: regenerated fact
+    have hd : dropsInPassOfLastCopy = false := rfl
+    by_cases h2 : t > e.start + (e.n + retransmitAddend) * P.ackTimeout <;> simp [h2, hd]
 
 theorem tickList_cons (P : Params) (t : Nat) (e : Pend) (r : List Pend) :
     tickList P t (e :: r) =
@@ -961,6 +963,24 @@ theorem countP_id_unique (q : Pend → Bool) : ∀ (ps : List Pend), (ps.map (·
         rw [heq]; exact List.mem_map.mpr ⟨e, he, rfl⟩
       rw [countP_id_unique q r hn.2 e he]
       simp [hne]
+
+/-- An entry that was retransmitted in a pass is still there after the pass (with its counter advanced). -/
+theorem tick_keeps_bumped (P : Params) (t : Nat) : ∀ (ps : List Pend) (e : Pend), e ∈ ps → bumped P t e = true →
+    ({ e with n := e.n + 1 } : Pend) ∈ (tickList P t ps).1
+  | x :: r, e, he, hb => by
+    rw [tickList_cons]
+    cases he with
+    | head =>
+      simp only [bumped, Bool.and_eq_true, Bool.not_eq_true'] at hb
+      simp only [hb.1, hb.2, Bool.false_eq_true, if_false, if_true]
+      exact List.mem_cons_self
+    | tail _ he =>
+      have ih := tick_keeps_bumped P t r e he hb
+      by_cases h1 : dropped P t x = true
+      · simp only [h1, if_true]; exact ih
+      · by_cases h2 : due P t x = true
+        · simp only [h1, h2, if_true, Bool.false_eq_true, if_false]; exact List.mem_cons_of_mem _ ih
+        · simp only [h1, h2, Bool.false_eq_true, if_false]; exact List.mem_cons_of_mem _ ih
 
 theorem lt_of_not_exhausted {P : Params} {n : Nat} (h : exhausted P n = false) : n < P.maxRetransmit := by
   unfold exhausted at h
@@ -1146,6 +1166,19 @@ theorem inv_editReq {P : Params} {s : State} (h : Inv P s) (id m : Nat) :
     (fun c _ _ ht => by
       simp only [editReq, Bool.or_eq_false_iff, beq_eq_false_iff_ne] at ht
       exact ⟨ht.1, fun hp => (ht.2 hp).elim⟩)
+
+/-- A pass that wrote a copy of a request leaves that request pending: the answer to this copy — also to the
+    last one — can still complete the call. -/
+theorem tick_copy_still_pending {P : Params} {s : State} (h : Inv P s) (ahead id : Nat)
+    (hc : txCount s.log id < txCount (tick P s ahead).log id) : isPending (tick P s ahead).pend id = true := by
+  unfold tick at hc ⊢
+  simp only at hc ⊢
+  rw [txCount_append, tick_count] at hc
+  have hpos : 0 < s.pend.countP (fun e => e.id == id && bumped P (s.now + ahead) e) := by omega
+  obtain ⟨e, he, hq⟩ := List.countP_pos_iff.mp hpos
+  simp only [Bool.and_eq_true, beq_iff_eq] at hq
+  have := tick_keeps_bumped P (s.now + ahead) s.pend e he hq.2
+  exact isPending_iff.mpr ⟨_, this, hq.1⟩
 
 theorem inv_step {P : Params} {s : State} (h : Inv P s) (e : Ev) : Inv P (step P s e) := by
   cases e with
